@@ -181,7 +181,7 @@ func (m *tcl) flow(fn *ssa.Function, start *ssa.BasicBlock, init tset, within *n
 				if bidx >= 0 && bidx < len(x.Results) {
 					switch rv := x.Results[bidx].(type) {
 					case *ssa.Const:
-						if rv.Value != nil && constant.BoolVal(rv.Value) {
+						if rv.Value != nil && cBool(rv.Value) {
 							tag = 1
 						} else {
 							tag = 2
@@ -324,7 +324,7 @@ func engineTCL(w *World, tier string) *EngineResult {
 			for _, ins := range b.Instrs {
 				if st, ok := ins.(*ssa.Store); ok {
 					if fa, ok := st.Addr.(*ssa.FieldAddr); ok && fa.X == ssa.Value(fn.Params[0]) {
-						if k, ok := st.Val.(*ssa.Const); ok && k.Value != nil && k.Value.Kind() == constant.Bool && !constant.BoolVal(k.Value) {
+						if k, ok := st.Val.(*ssa.Const); ok && k.Value != nil && k.Value.Kind() == constant.Bool && !cBool(k.Value) {
 							flagField = fa.Field
 						}
 					}
@@ -348,7 +348,7 @@ func engineTCL(w *World, tier string) *EngineResult {
 				case *ssa.Store:
 					n++
 					if fa, isFA := x.Addr.(*ssa.FieldAddr); isFA && fa.Field == flagField && fa.X == ssa.Value(fn.Params[0]) {
-						if k, isC := x.Val.(*ssa.Const); isC && k.Value != nil && k.Value.Kind() == constant.Bool && constant.BoolVal(k.Value) {
+						if k, isC := x.Val.(*ssa.Const); isC && k.Value != nil && k.Value.Kind() == constant.Bool && cBool(k.Value) {
 							ok = true
 						}
 					}
